@@ -296,6 +296,19 @@ theorem liveDocs_no_deletes {α} (l : List α) (al : List Bool) (hlen : l.length
       · have hb : hasDeletes bs = false := by simpa [hasDeletes] using h
         simp [liveDocs, ih bs hlen hb]
 
+theorem liveDocs_sublist {α} (l : List α) (al : List Bool) : List.Sublist (liveDocs l al) l := by
+  induction l generalizing al with
+  | nil => cases al <;> simp [liveDocs]
+  | cons a as ih =>
+    cases al with
+    | nil => simp [liveDocs]
+    | cons b bs =>
+      cases b
+      · simp only [liveDocs, Bool.false_eq_true, if_false]
+        exact (ih bs).cons _
+      · simp only [liveDocs, if_true]
+        exact (ih bs).cons_cons _
+
 /-- the scan is exact: it answers `true` iff some live document has no value -/
 theorem hasLiveNulls_iff (c : SegCol) (hlen : c.keys.length = c.alive.length) (hcard : CardOk c)
     (hnm : c.card ≠ .multivalued) :
